@@ -21,6 +21,17 @@ static int acceptMain(const std::vector<std::string>&, std::istream& in, std::os
             out << "\n";
             continue;
         }
+        if (w.size() == 4 && w[0] == "guess") {
+            // the REAL Parser::guessRoleOfIdentifier with the cursor on the first token (an identifier) of the text
+            ParseOptions o;
+            auto tree = SyntaxTree::parseText(SourceText(unhex(w[3])), TextPreprocessingState::Preprocessed, TextCompleteness::Fragment, o, "g.c");
+            Parser parser(tree.get());
+            parser.curTkIdx_ = 1;
+            parser.isWithinKandRFuncDef_ = w[2] == "1";
+            auto r = parser.guessRoleOfIdentifier(static_cast<Parser::DeclarationContext>(w[1][0] - '0'));
+            out << (r == Parser::IdentifierRole::TypedefName ? "T" : "D") << "\n";
+            continue;
+        }
         if (w.size() != 3 || w[0] != "parse") { out << "bad-case\n"; continue; }
         ParseOptions opts = decodeOptions(w[1]);
         std::unique_ptr<SyntaxTree> t;
